@@ -98,3 +98,18 @@ M.contract(F, "RunGeneratorResult.new_files", params=dict(self=Results, safe=BOO
            ensures=["result == spec_nf(self.entire_results, {}, safe)"],
            loops={1: dict(match="self.entire_results.values()", inv=["spec_nf(_rest1, files, safe) == spec_nf(self.entire_results, {}, safe)"])},
            canaries=["len(result) == 0"], inputs=_nf_inputs, properties=["C19"])
+
+
+# ---- OldNewResult: which plan the deploy / diff code is handed (the safe filter must select the safe plan, nothing else)
+FT = "annet/types.py"
+FragD = U.opaque("FragD")
+AclO = U.opaque("AclO")
+ONR = U.record("ONR", dict(new_files=FileDict, safe_new_files=FileDict, new_json_fragment_files=FragD,
+                           safe_new_json_fragment_files=FragD, acl_rules=AclO, acl_safe_rules=AclO))
+
+M.contract(FT, "OldNewResult.get_new_files", params=dict(self=ONR, safe=BOOL), defaults=dict(safe=False), ret=FileDict,
+           ensures=["result == (self.safe_new_files if safe else self.new_files)"], canaries=["result == self.new_files"],
+           properties=["C19"])
+M.contract(FT, "OldNewResult.get_new_file_fragments", params=dict(self=ONR, safe=BOOL), defaults=dict(safe=False), ret=FragD,
+           ensures=["result == (self.safe_new_json_fragment_files if safe else self.new_json_fragment_files)"],
+           canaries=["result == self.new_json_fragment_files"], properties=["C19"])
